@@ -13,13 +13,20 @@ import (
 // fired while something else could run. Bounds 0..MaxBound are completed in turn; executions always
 // run to completion.
 type Explorer struct {
-	MaxBound  int
-	MaxSteps  int
-	MaxExecs  int           // cap per bound (0 = none)
-	Deadline  time.Time     // internal deadline (zero = none)
-	Body      func(x *Exec) // thread 0
-	Check     func(x *Exec) // evaluated after every complete execution (may call x.Fail)
-	OnFailure func(x *Exec, f Failure, schedule []int)
+	MaxBound int
+	// DelayBounding: every departure from the default deterministic scheduler (running thread first,
+	// then lowest id) costs one deviation, also when the running thread is blocked or finished
+	// (delay-bounded scheduling, Emmi/Qadeer/Rakamaric POPL 2011). Without it only preemptions of a
+	// runnable thread and early timer firings are counted (CHESS-style preemption bounding), and the
+	// choice of the next thread after a block is free.
+	DelayBounding bool
+	MaxSteps      int
+	MaxExecs      int           // cap per bound (0 = none)
+	Deadline      time.Time     // internal deadline (zero = none)
+	Body          func(x *Exec) // thread 0
+	Check         func(x *Exec) // evaluated after every complete execution (may call x.Fail)
+	OnFailure     func(x *Exec, f Failure, schedule []int)
+	OnDeadlock    func(x *Exec) string // names the violation a deadlock stands for in this harness
 
 	Execs          int
 	PointsTotal    int
@@ -35,9 +42,25 @@ type Explorer struct {
 func (e *Explorer) cost(x *Exec, upto int) int {
 	c := 0
 	for i := 0; i < upto && i < len(x.Points); i++ {
+		if e.DelayBounding {
+			if len(x.Points[i].Enabled) > 1 && x.Points[i].Chosen != 0 {
+				c++
+			}
+			continue
+		}
 		c += deviation(x.Points[i], x.Points[i].Chosen)
 	}
 	return c
+}
+
+func (e *Explorer) altCost(p Point, alt int) int {
+	if e.DelayBounding {
+		if alt != 0 {
+			return 1
+		}
+		return 0
+	}
+	return altCost(p, alt)
 }
 
 // deviation cost of taking alternative alt at point p
@@ -77,7 +100,11 @@ func (e *Explorer) judge(x *Exec) {
 		x.Fail("HARNESS: schedule replay diverged: "+x.Diverged, nil)
 	}
 	if x.Deadlock && len(x.Panics) == 0 {
-		x.Fail("deadlock: "+x.DeadlockInfo, nil)
+		sig := "deadlock: " + x.DeadlockInfo
+		if e.OnDeadlock != nil {
+			sig = e.OnDeadlock(x)
+		}
+		x.Fail(sig, x.DeadlockInfo)
 	}
 	if x.Livelock {
 		x.Fail("livelock: the execution exceeds the step horizon", nil)
@@ -157,11 +184,11 @@ func (e *Explorer) explore(prefix []int, bound int, used int) {
 			if alt == p.Chosen {
 				continue
 			}
-			if before+altCost(p, alt) > bound {
+			if before+e.altCost(p, alt) > bound {
 				continue
 			}
 			np := append(append([]int{}, x.Choices[:i]...), alt)
-			e.explore(np, bound, before+altCost(p, alt))
+			e.explore(np, bound, before+e.altCost(p, alt))
 			if e.stop {
 				return
 			}
